@@ -19,3 +19,14 @@ SPECS = {
         "a case is non-trivial if at least one 'must be offered' assertion (probe pull / idle stream / drain with a certainly "
         "deliverable message) was evaluated; distinct = distinct hash of the (operation, reply) trace"),
 }
+
+_H = "seeded adaptive histories (profile(s) %s) over the real handlers in virtual time, checked step by step against the reference model and ended by a drain; a case is non-trivial if %s; distinct = distinct hash of the (operation, reply) trace"
+SPECS.update({
+    "C02": hist("TestC02", _H % ("content, independence", "at least one delivery was compared field by field with what was published")),
+    "C03": hist("TestC03", _H % ("ack", "at least one acknowledgement took effect or a stale/duplicate/unknown id was sent")),
+    "C04": hist("TestC04", _H % ("lease, lease-default", "at least one redelivery (attempt >= 2) was observed and placed against its lease window")),
+    "C05": hist("TestC05", _H % ("order, order-dl, order-seek-retention", "a keyed message was delivered on an ordered subscription after an earlier same-key message had been settled")),
+    "C06": hist("TestC06", _H % ("deadletter", "at least one delivery reached its max_delivery_attempts and had to be forwarded")),
+    "C13": hist("TestC13", _H % ("seek", "a seek acknowledged or revived at least one delivery")),
+    "C14": hist("TestC14", _H % ("retention", "a subscription expired, a retention deadline passed with a message outstanding, or a delivery delay was observed")),
+})
